@@ -540,7 +540,7 @@ func (w *world) submit(alt string, b *blockchain.Block, s *exh.Script, resigned 
 		}
 		now2 := uint32(time.Now().Unix())
 		after := n.Dump()
-		c.Impl = ImplJ{Class: exh.ErrClass(r), DBSame: exh.Digest(before) == exh.Digest(after), Events: n.DrainEvents(),
+		c.Impl = ImplJ{Class: exh.ErrClass(r), DBSame: exh.Digest(exh.Canon(before)) == exh.Digest(exh.Canon(after)), Events: n.DrainEvents(),
 			TipAfter: hex.EncodeToString(n.Tip().Header.ID), CSAfter: csCode(n), AppAfter: hex.EncodeToString(n.ABI.AppRoot),
 			Commits: n.ABI.Commits - commits0, Reverts: n.ABI.Reverts - reverts0,
 			LbrAfter: lbrClass(lbr0, n.Exec.VerifC03LastBlockReceived(), t0)}
@@ -552,7 +552,7 @@ func (w *world) submit(alt string, b *blockchain.Block, s *exh.Script, resigned 
 		}
 		c.Impl.FinAfter, _ = n.Finalized()
 		if !c.Impl.DBSame {
-			c.Impl.DiffKeys = exh.DiffKeys(before, after)
+			c.Impl.DiffKeys = exh.DiffKeys(exh.Canon(before), exh.Canon(after))
 			if len(c.Impl.DiffKeys) > 12 {
 				c.Impl.DiffKeys = c.Impl.DiffKeys[:12]
 			}
@@ -1291,13 +1291,13 @@ func (w *world) tieBreakOnce(mode int) bool {
 	r := n.Process(T2)
 	hook.disarm()
 	after := n.Dump()
-	c.Impl = ImplJ{Class: exh.ErrClass(r), DBSame: exh.Digest(before) == exh.Digest(after), Events: n.DrainEvents(),
+	c.Impl = ImplJ{Class: exh.ErrClass(r), DBSame: exh.Digest(exh.Canon(before)) == exh.Digest(exh.Canon(after)), Events: n.DrainEvents(),
 		TipAfter: hex.EncodeToString(n.Tip().Header.ID), CSAfter: csCode(n), AppAfter: hex.EncodeToString(n.ABI.AppRoot),
 		Commits: n.ABI.Commits - commits0, Reverts: n.ABI.Reverts - reverts0,
 		LbrAfter: lbrClass(lbr0, n.Exec.VerifC03LastBlockReceived(), t0)}
 	c.Impl.FinAfter, _ = n.Finalized()
 	if !c.Impl.DBSame {
-		c.Impl.DiffKeys = exh.DiffKeys(before, after)
+		c.Impl.DiffKeys = exh.DiffKeys(exh.Canon(before), exh.Canon(after))
 	}
 	if n.Slot(uint32(time.Now().Unix())) != nowSlot {
 		// the wall clock left the slot during the scenario: undo it and let the caller retry
